@@ -55,6 +55,9 @@ let () =
   register "c16findei" (fun args -> match args with
     | [h] -> string_of_int (int_of_n (c16_find_ei (unhexbytes h)))
     | _ -> "?args");
+  register "c16clean" (fun args -> match args with
+    | [h] -> c16_b (c16_clean (unhexbytes h))
+    | _ -> "?args");
   register "c16sem" (fun args -> match args with
     | [h] -> (match c16_sem (unhexbytes h) with
               | None -> "invalid"
